@@ -214,15 +214,43 @@ func (wk *worker) hold(w *world) error {
 	st := wk.stores[w.storage]
 	wk.cs.inner = st
 	roots := (*share.AxisRoots)(w.S.DAH)
+	put := st.PutODSQ4
 	if w.storage == "ods" {
-		return st.PutODS(context.Background(), roots, w.height, w.S.EDS)
+		put = st.PutODS
 	}
-	return st.PutODSQ4(context.Background(), roots, w.height, w.S.EDS)
+	if err := put(context.Background(), roots, w.height, w.S.EDS); err != nil {
+		return err
+	}
+	if w.alt != nil {
+		return put(context.Background(), (*share.AxisRoots)(w.alt.S.DAH), w.alt.height, w.alt.S.EDS)
+	}
+	return nil
 }
 
 func (wk *worker) drop(w *world) {
+	if w.alt != nil {
+		_ = wk.stores[w.storage].RemoveODSQ4(context.Background(), w.alt.height, w.alt.S.DAH.Hash())
+	}
 	_ = wk.stores[w.storage].RemoveODSQ4(context.Background(), w.height, w.S.DAH.Hash())
 }
+
+// newWorld builds the square of a layout (payload variant 0) to be held at height, together
+// with a second block of the same layout and another payload held at height+altOffset.
+func newWorld(l sq.Layout, height uint64, storage string) (*world, error) {
+	S, err := sq.Build(l, 0)
+	if err != nil {
+		return nil, err
+	}
+	S2, err := sq.Build(l, 1)
+	if err != nil {
+		return nil, err
+	}
+	w := &world{S: S, height: height, storage: storage, ods: S.ODS()}
+	w.alt = &world{S: S2, height: height + altOffset, storage: storage, ods: S2.ODS()}
+	return w, nil
+}
+
+const altOffset = 7
 
 // ---------------------------------------------------------------------------
 // one exchange
@@ -307,7 +335,11 @@ func (wk *worker) exchangeOnce(sp spec, w *world, exp expectation) (*observation
 
 	var req request
 	if sp.mode == "typed" {
-		r, err := typedRequest(exp.id, w)
+		tw := w
+		if exp.w != nil {
+			tw = exp.w
+		}
+		r, err := typedRequest(exp.id, tw)
 		if err != nil {
 			o.ctorErr = err
 			o.cliClass = "constructor-refused"
@@ -412,7 +444,7 @@ func judge(sp spec, w *world, exp expectation, o *observation, resp response) []
 					o.verr = fmt.Errorf("panic in client verification: %v", r)
 				}
 			}()
-			o.verr, o.equal = verifyAsGetter(exp.id, resp, w)
+			o.verr, o.equal = verifyAsGetter(exp.id, resp, exp.w)
 		}()
 		o.verified = true
 		accepted = o.verr == nil
@@ -725,6 +757,10 @@ func lengths(w *world, full bool) []spec {
 				out = append(out, spec{kind: k, mode: "raw", raw: append(append([]byte(nil), enc...), tail...), fault: faultAlphabet[0], group: "overlong"})
 			}
 		}
+		// exact-length strings of one repeated byte
+		for _, v := range []byte{0x00, 0x01, 0x7f, 0x80, 0xff} {
+			out = append(out, spec{kind: k, mode: "raw", raw: bytes.Repeat([]byte{v}, kindSize[k]), fault: faultAlphabet[0], group: "uniform-bytes"})
+		}
 	}
 	return out
 }
@@ -777,6 +813,42 @@ func shortStrings(maxLen int, f func(spec) bool) {
 	}
 }
 
+// cornerRequests: a fixed list of requests at the corners of the square (whole square, first /
+// last row, corner coordinates, first / last / whole range, every probe namespace).
+func cornerRequests(w *world) []spec {
+	var reqs []spec
+	area := w.S.W * w.S.W
+	n := w.S.N
+	ids := []refID{{kind: kEds}, {kind: kRow, row: 0}, {kind: kRow, row: n - 1},
+		{kind: kSample, row: 0, col: 0}, {kind: kSample, row: n - 1, col: n - 1}, {kind: kSample, row: 0, col: n - 1},
+		{kind: kRange, from: 0, to: 1}, {kind: kRange, from: area - 1, to: area}, {kind: kRange, from: 0, to: area}}
+	for _, p := range sq.Probes() {
+		ids = append(ids, refID{kind: kNd, ns: p.NS.Bytes()})
+	}
+	for _, id := range ids {
+		id.height = w.height
+		raw := refEncode(id)
+		mode := "typed"
+		if classify(id.kind, raw, w).class == expRefuse {
+			mode = "raw"
+		}
+		reqs = append(reqs, spec{kind: id.kind, mode: mode, raw: raw, fault: faultAlphabet[0]})
+	}
+	return reqs
+}
+
+// otherBlock: the corner requests for the second block the server holds at the same time.
+func otherBlock(w *world) []spec {
+	if w.alt == nil {
+		return nil
+	}
+	out := cornerRequests(w.alt)
+	for i := range out {
+		out[i].group = "other-block"
+	}
+	return out
+}
+
 // faultCases: the fault alphabet on well-formed requests (all of them, or the corner list)
 // and on a request for a height that is not held.
 func faultCases(w *world, all bool) []spec {
@@ -784,23 +856,7 @@ func faultCases(w *world, all bool) []spec {
 	if all {
 		reqs = wellFormed(w)
 	} else {
-		area := w.S.W * w.S.W
-		n := w.S.N
-		ids := []refID{{kind: kEds}, {kind: kRow, row: 0}, {kind: kRow, row: n - 1},
-			{kind: kSample, row: 0, col: 0}, {kind: kSample, row: n - 1, col: n - 1}, {kind: kSample, row: 0, col: n - 1},
-			{kind: kRange, from: 0, to: 1}, {kind: kRange, from: area - 1, to: area}, {kind: kRange, from: 0, to: area}}
-		for _, p := range sq.Probes() {
-			ids = append(ids, refID{kind: kNd, ns: p.NS.Bytes()})
-		}
-		for _, id := range ids {
-			id.height = w.height
-			raw := refEncode(id)
-			mode := "typed"
-			if classify(id.kind, raw, w).class == expRefuse {
-				mode = "raw"
-			}
-			reqs = append(reqs, spec{kind: id.kind, mode: mode, raw: raw})
-		}
+		reqs = cornerRequests(w)
 	}
 	base := baseIDs(w)
 	for k := 0; k < numKinds; k++ {
@@ -853,6 +909,7 @@ func specsFor(w *world, tier string, layoutIdx int) []spec {
 	full := w.storage == "q4" || tier == "thorough"
 	var out []spec
 	out = append(out, wellFormed(w)...)
+	out = append(out, otherBlock(w)...)
 	out = append(out, notHeld(w)...)
 	out = append(out, fieldGrid(w, full)...)
 	out = append(out, lengths(w, full)...)
@@ -976,12 +1033,11 @@ func runShard(t *testing.T, tier string, seed int64, idx, n int, deadline time.T
 		l := sq.MustParse("w2:TX1,A2,TAIL1")[0]
 		var logs [2][]string
 		for round := 0; round < 2; round++ {
-			S, err := sq.Build(l, 0)
+			w, err := newWorld(l, 5000, "q4")
 			if err != nil {
 				out.Infra = err.Error()
 				return out
 			}
-			w := &world{S: S, height: 5000, storage: "q4", ods: S.ODS()}
 			if err := wk.hold(w); err != nil {
 				out.Infra = err.Error()
 				return out
@@ -1012,8 +1068,11 @@ func runShard(t *testing.T, tier string, seed int64, idx, n int, deadline time.T
 		if j.short > 0 {
 			if shortWorld == nil {
 				l := sq.MustParse("w2:TX1,A2,TAIL1")[0]
-				S, _ := sq.Build(l, 0)
-				shortWorld = &world{S: S, height: 7000, storage: "q4", ods: S.ODS()}
+				shortWorld, err = newWorld(l, 7000, "q4")
+				if err != nil {
+					out.Infra = err.Error()
+					return out
+				}
 				if err := wk.hold(shortWorld); err != nil {
 					out.Infra = err.Error()
 					return out
@@ -1049,12 +1108,11 @@ func runShard(t *testing.T, tier string, seed int64, idx, n int, deadline time.T
 			out.JobsDone++
 			continue
 		}
-		S, err := sq.Build(j.lay, 0)
+		w, err := newWorld(j.lay, uint64(10000+1000*i), j.storage)
 		if err != nil {
 			out.Infra = err.Error()
 			return out
 		}
-		w := &world{S: S, height: uint64(10000 + 1000*i), storage: j.storage, ods: S.ODS()}
 		if err := wk.hold(w); err != nil {
 			out.Infra = fmt.Sprintf("storing %s: %v", j.lay, err)
 			return out
@@ -1383,13 +1441,13 @@ func replayC09(t *testing.T, rep *vx.Report, path string) {
 		if err != nil {
 			t.Fatal(err)
 		}
-		S, err := sq.Build(l, 0)
+		held := c.Held
+		if held == 0 {
+			held = 424242
+		}
+		w, err := newWorld(l, held, c.Storage)
 		if err != nil {
 			t.Fatal(err)
-		}
-		w := &world{S: S, height: c.Held, storage: c.Storage, ods: S.ODS()}
-		if w.height == 0 {
-			w.height = 424242
 		}
 		if err := wk.hold(w); err != nil {
 			t.Fatal(err)
